@@ -377,6 +377,13 @@ def cases_C13(rng, tier):
                 out.append(case("rt", ty, b, fam="depth-sweep-rt", key=(ty, b)))
                 if ty in TAGGED_TYPES:
                     out.append(case("dectag", ty, head(6, MSG_TAG[ty]) + b, fam="depth-sweep-tagged"))
+    for ty in TAGGED_TYPES:
+        for _ in range(3):
+            body = enc(gen_msg(rng, ty, 1))
+            out.append(case("dec", ty, body, fam="base", key=(ty, body)))
+            for w in widths_for(MSG_TAG[ty]):
+                tb = head(6, MSG_TAG[ty], w) + body
+                out.append(case("dectag", ty, tb, fam="tag-head-widths", key=(ty, body)))
     return out
 
 def post_C13(cases, impl):
@@ -1050,6 +1057,11 @@ def cases_C18(rng, tier):
                                 expect="ok %s ok %s" % (want.hex(), pyspec.show(pyspec.assign(ty, d)))))
     out += combos.claims_combo_cases(case, 1) + combos.kdf_combo_cases(case, 1)
     if tier != 'quick': out += combos.claims_combo_cases(case, 2) + combos.kdf_combo_cases(case, 2)
+    cpool = [I(-260), I(-257), I(-65537), I(-70000), I(-2**63), I(0), I(8), I(40), T("x"), T("")]
+    for a, b in itertools.permutations(cpool, 2):
+        out.append(case("dec", "ClaimsSet", enc(M((a, I(1)), (b, I(2)), (a, I(3)))), fam="dup-around:ClaimsSet", expect_re=r"err:\w+"))
+        out.append(case("dec", "ClaimsSet", enc(M((a, I(1)), (b, I(2)))), fam="distinct-pair:ClaimsSet",
+                        expect="ok [N,N,N,N,N,N,N,[[%s,i0x1],[%s,i0x2]]]" % tuple(("[i0x2,%s]" % pyspec.show(k)) if k[0] == 't' else ("[%s,%s]" % ("i0x0" if k[1] < -65536 else "i0x1", pyspec.show(k))) for k in (a, b))))
     return out
 
 # ================================================================= C11
@@ -1249,6 +1261,37 @@ def cases_C12(rng, tier):
             out.append(case("enc", kind, enc(('a', x)), fam="dup-encode:ClaimsSet", check=chk_nodup, claims_dup=True))
     out += combos.dup_class_pair_cases(case)
     out += [c for f in (combos.header_combo_cases, combos.key_combo_cases, combos.claims_combo_cases) for c in f(case, 4) if '-dup' in c['fam']]
+    # the duplicate-key error itself must come through every enclosing decoder (maps whose entries are all valid)
+    for hb in (enc(M((I(4), B(b"\x01")), (I(4), B(b"\x01")))), enc(M((I(99), I(1)), (T("y"), I(0)), (I(99), I(2)))), enc(M((T("x"), I(1)), (I(1), I(-7)), (T("x"), I(1))))):
+        raw = ("raw", hb)
+        rec_p = A(B(hb), M(), NULL); rec_u = A(B(b""), raw, NULL)
+        sig_p = A(B(hb), M(), B(b"")); sig_u = A(B(b""), raw, B(b""))
+        def rec_at(depth, r):
+            for _ in range(depth): r = A(B(b""), M(), NULL, A(A(B(b""), M(), NULL), r))
+            return r
+        places = [("Header", hb, False), ("ProtectedHeader", hb, False), ("CoseSign1", enc(A(B(hb), M(), NULL, B(b""))), False),
+                  ("CoseMac0", enc(A(B(b""), raw, NULL, B(b""))), False), ("CoseEncrypt0", enc(A(B(hb), M(), NULL)), False),
+                  ("CoseSignature", enc(sig_p), False), ("CoseSignature", enc(sig_u), False),
+                  ("CoseSign1", enc(A(B(b""), M((I(7), sig_u)), NULL, B(b""))), False), ("CoseSign1", enc(A(B(enc(M((I(7), A(sig_p, sig_p))))), M(), NULL, B(b""))), False),
+                  ("SuppPubInfo", enc(A(I(1), B(hb))), False), ("CoseKdfContext", enc(A(I(1), A(NULL, NULL, NULL), A(NULL, NULL, NULL), A(I(1), B(hb)))), False),
+                  ("CoseSign", enc(A(B(b""), M(), NULL, A(sig_p))), True), ("CoseSign", enc(A(B(b""), M(), NULL, A(A(B(b""), M(), B(b"")), sig_u))), True)]
+        for d in (0, 1, 2, 3):
+            for r in (rec_p, rec_u):
+                places.append(("CoseRecipient", enc(rec_at(d, r)), False))
+                places.append(("CoseMac", enc(A(B(b""), M(), NULL, B(b""), A(rec_at(d, r)))), False))
+                places.append(("CoseEncrypt", enc(A(B(b""), M(), NULL, A(A(B(b""), M(), NULL), rec_at(d, r)))), False))
+        for ty, b, masked in places:
+            out.append(case("dec", ty, b, fam="dup-kind-at-position:" + ty, expect="err:Dup", strict_err=True, sign_nested=masked))
+    # a label repeated around another one, for every ordered pair of a boundary label pool (the tracker must not depend on
+    # the order relation between the two): headers, keys, claims
+    pool = [I(-1), I(-24), I(-25), I(23), I(24), I(255), I(256), I(0), I(2**63 - 1), I(-2**63), T("a"), T("aa"), T("")]
+    for a, b in itertools.permutations(pool, 2):
+        out.append(case("dec", "Header", enc(M((a, I(1)), (b, I(2)), (a, I(3)))), fam="dup-around:Header", expect="err:Dup", strict_err=True))
+        out.append(case("dec", "CoseKey", enc(M((I(1), I(4)), (a, I(1)), (b, I(2)), (a, I(3)))), fam="dup-around:CoseKey", expect_re=r"err:\w+"))
+    cpool = [I(-260), I(-257), I(-65537), I(-70000), I(-2**63), I(0), I(8), I(40), T("x"), T("")]
+    for a, b in itertools.permutations(cpool, 2):
+        out.append(case("dec", "ClaimsSet", enc(M((a, I(1)), (b, I(2)), (a, I(3)))), fam="dup-around:ClaimsSet", expect="err:Dup", strict_err=True))
+        out.append(case("dec", "ClaimsSet", enc(M((a, I(1)), (b, I(2)))), fam="distinct-pair:ClaimsSet", expect_re=r"ok .*"))
     return out
 
 # ================================================================= C20
@@ -1824,6 +1867,18 @@ def cases_C01(rng, tier):
             out.append(case("dec", "CoseMac", b"\x85\x40\xa0\xf6\x40\x81\x83" + w + b"\xa0\xf6", fam="wrapped-protected"))
             out.append(case("dec", "CoseKdfContext", b"\x84\x01\x83\xf6\xf6\xf6\x83\xf6\xf6\xf6\x82\x00" + w, fam="wrapped-protected"))
             out.append(case("dec", "Header", b"\xa1\x07\x83" + w + b"\xa0\x40", fam="wrapped-protected"))
+    ALLT = ["Header", "ProtectedHeader", "CoseKey", "CoseKeySet", "ClaimsSet", "CoseSign1", "CoseMac0", "CoseEncrypt0", "CoseSign", "CoseMac",
+            "CoseEncrypt", "CoseRecipient", "CoseSignature", "CoseKdfContext", "SuppPubInfo", "PartyInfo", "Label"]
+    for n in (1, 2, 50, 3000, 60000):
+        for tagn in (24, 55799, None):
+            w = b"\xa0"
+            for _ in range(n):
+                w = head(2, len(w)) + w
+                if tagn is not None: w = head(6, tagn) + w
+            for ty in ALLT:
+                out.append(case("dec", ty, w, fam="wrapped-toplevel", expect_re=r"err:\w+", impl_only=(n > 3000)))
+            if n <= 3000:
+                out.append(case("dec", "CoseKeySet", b"\x81" + w, fam="wrapped-toplevel", expect_re=r"err:\w+"))
     return out
 # ================================================================= registry
 PROPS = {}
